@@ -34,7 +34,7 @@ ASSUMPTIONS = [
 ]
 REQUIRED_REACH = {"monitor.baseline_metrics": 300, "contract.safe_divide": 1000, "monitor.reporting_metrics": 50,
                   "monitor.caltrack_metrics": 50, "monitor.hourly_stored_vs_predict": 3, "monitor.hourly_gate": 6,
-                  "monitor.daily_error": 4, "monitor.daily_gate": 4, "ratio.undefined_expected": 20, "monitor.hourly_gate_undefined_metric": 1}
+                  "monitor.daily_error": 4, "monitor.daily_gate": 4, "ratio.undefined_expected": 20, "monitor.hourly_gate_undefined_metric": 1, "monitor.daily_model_object_reused": 2}
 
 VIOL = []
 CTX = {"where": "direct"}
@@ -405,7 +405,17 @@ def _daily_fit(spec, rng, keys, hist):
             df["observed"] = np.abs(rng.normal(10, 12, len(df))) + 0.1
         bd = em.DailyBaselineData(df, is_electricity_data=True)
         mk = (lambda **kw: em.DailyModel(model="legacy", **kw)) if fam == "legacy" else (lambda **kw: em.DailyModel(**kw))
-    m = mk().fit(copy.deepcopy(bd), ignore_disqualification=True)
+    m = mk()
+    if spec.get("reused_model_object"):
+        # the model object fitted another (clean, well-behaved) meter first: the statistics it reports must be those of the latest fit
+        if fam == "billing":
+            t2, b2, _ = billing_reads(rng, tz=spec["tz"], n_periods=13, noise=0.01)
+            other = em.BillingBaselineData(t2.join(b2), is_electricity_data=True)
+        else:
+            other = em.DailyBaselineData(synth_daily(tz=spec["tz"], n=365, seed=rng, kind="both", noise=0.01), is_electricity_data=True)
+        m.fit(other, ignore_disqualification=True)
+        I.reach("monitor.daily_model_object_reused")
+    m = m.fit(copy.deepcopy(bd), ignore_disqualification=True)
     pred = m.predict(bd, ignore_disqualification=True)
     ok = np.isfinite(pred["observed"].to_numpy(float)) & np.isfinite(pred["predicted"].to_numpy(float))
     o, q = pred["observed"].to_numpy(float)[ok], pred["predicted"].to_numpy(float)[ok]
@@ -441,6 +451,14 @@ def _daily_fit(spec, rng, keys, hist):
             add("daily-error-differs-from-formula", "model.error[PNRMSE]=%.12g vs %.12g/%.12g" % (err["PNRMSE"], pn_a, pn_b), field="PNRMSE", family=fam)
     # ---- gate ---------------------------------------------------------------------------------
     thr0 = m.settings.cvrmse_threshold
+    if spec.get("reused_model_object"):
+        lo_, hi_ = sorted((err["CVRMSE"], cv))
+        if not (lo_ <= thr0 <= hi_) or abs(err["CVRMSE"] - cv) > 0.2 * cv:
+            poor = [w for w in m.disqualification if "model_fit" in w.qualified_name]
+            I.reach("monitor.daily_gate")
+            if bool(poor) != (cv > thr0):
+                add("daily-poor-fit-gate:reused-model-object", "re-used model object: poor-fit disqualification %s but CVRMSE of its predictions is %.4g (threshold %.4g, reported %.4g)" % (bool(poor), cv, thr0, err["CVRMSE"]), family=fam)
+        return
     for f in (1.01, 0.99):
         # threshold just above / below the *true* CVRMSE, skipping thresholds that fall between the
         # reported and the true value (that disagreement is finding 'selection-stage' above)
@@ -481,6 +499,9 @@ def gen_cases(tier, seed):
         cases.append(dict(kind="daily", family=fams[k % 3], tz=zones[(k // 3) % len(zones)],
                           usage_kind=["both", "heating", "cooling", "flat"][k % 4], noise=[0.02, 0.15, 0.5][(k // 2) % 3],
                           weekend=0.3 if k % 4 == 0 else 0.0, pure_noise=bool(k % 7 == 6), batch=k, timeout=1200))
+    for k in range(3 if q else 12):
+        cases.append(dict(kind="daily", family=fams[k % 3], tz=zones[k % len(zones)], usage_kind="both", noise=[0.5, 0.15, 0.5][k % 3], weekend=0.0,
+                          pure_noise=bool(k % 2 == 0), reused_model_object=True, batch=500 + k, timeout=1200))
     return cases
 
 
